@@ -145,8 +145,19 @@ static R max_norm(const Info& I, const std::vector<V3>& a) { R m = 0; for (unsig
 
 // ---- mesh generator: the shared families plus two of our own (sharp rims -> hinges beyond 135 deg, a waist -> concave hinges)
 static gen::TriMesh make_mesh(Rng& g, std::string& family) {
-    gen::TriMesh m; int kind = g.range(0, 8);
+    gen::TriMesh m; int kind = g.range(0, 9);
     if (kind <= 5) { m = gen::random_shape(g, 1300); }
+    else if (kind == 9) {
+        // sliver: a closed mesh with 1-3 needle triangles whose small angles lie between 0.6 and 1.9 degrees (a 'T-split' of a triangle
+        // (a,b,c): new node e just inside the edge ab, faces (a,e,c), (e,b,c) and the needle (a,b,e)).  Net force and torque must vanish
+        // on such meshes too; seeded change C02_1 (cotangents of hinge angles clamped at 2 degrees) is only visible here.
+        m = gen::random_shape(g, 600); int ns = g.range(1, 3);
+        for (int k = 0; k < ns; k++) { size_t ti = (size_t)(g.u64() % m.T.size()); auto t = m.T[ti]; int r = g.range(0, 2); unsigned a = t[r], b = t[(r + 1) % 3], c = t[(r + 2) % 3];
+            double mid[3], h[3], hl = 0, el = 0; for (int d = 0; d < 3; d++) { mid[d] = 0.5 * (m.P[a][d] + m.P[b][d]); h[d] = m.P[c][d] - mid[d]; hl += h[d] * h[d]; el += (m.P[b][d] - m.P[a][d]) * (m.P[b][d] - m.P[a][d]); } hl = std::sqrt(hl); el = std::sqrt(el);
+            double ang = g.uni(0.6, 1.9) * M_PI / 180.0; double off = std::tan(ang) * 0.5 * el; if (!(off < 0.2 * hl)) continue;
+            unsigned e = (unsigned)m.P.size(); m.P.push_back({mid[0] + h[0] / hl * off, mid[1] + h[1] / hl * off, mid[2] + h[2] / hl * off});
+            m.T[ti] = {a, e, c}; m.T.push_back({e, b, c}); m.T.push_back({a, b, e}); }
+        m.name = "sliver_" + m.name; }
     else if (kind == 8) { m = gen::uvsphere(g.range(4, 12), 2); gen::scale(m, 1, g.uni(0.6, 1), g.logu(0.05, 1.0)); m.name = "lens"; }
     else if (kind == 6) { m = g.coin() ? gen::icosphere(g.range(0, 2)) : gen::uvsphere(g.range(6, 16), g.range(4, 10)); gen::scale(m, 1, g.uni(0.6, 1), g.uni(0.08, 0.3)); m.name = "flat_" + m.name; }
     else { m = gen::icosphere(g.range(2, 3)); double w = g.uni(0.3, 0.6);
@@ -164,7 +175,7 @@ static int cmd_forces(const Args& a) {
         Rng g(a.seed, (uint64_t)i, 0x02);
         // ------------------------------------------------------------------ mesh
         std::string family; gen::TriMesh m = make_mesh(g, family);
-        bool jit = g.coin(0.7); if (jit) gen::jitter(m, g, g.uni(0.005, 0.05));
+        bool jit = g.coin(0.7) && family.rfind("sliver", 0) != 0; if (jit) gen::jitter(m, g, g.uni(0.005, 0.05));   // jitter would fold the needles of the sliver family
         gen::rotate(m, gen::rot_random(g));
         const double scale = g.logu(1e-6, 1e1); gen::scale(m, scale, scale, scale);
         double brad = 0; for (auto& p : m.P) brad = std::max(brad, std::sqrt(p[0] * p[0] + p[1] * p[1] + p[2] * p[2]));
